@@ -264,7 +264,7 @@ def _episode(g, gs0, sup, ep, eo: EpisodeOut, clock, const, plan):
             eo.stopped = True
             if ending == "stop2":
                 _call(eo, "stop", g.stop, budget=budget)
-            if ep["api"] != "stop_only":
+            if ep["api"] == "gym" or (ep["api"] == "run" and ep["nsteps"] > 0):
                 try:
                     eo.record = g.get_record()
                 except km.SimAbort:
